@@ -146,6 +146,8 @@ where
             }
         }
 
+        // `update` bumps the tip once per block, `height` is already the height of the last one
+        tx_index.tip = height;
         tx_index
     }
 
@@ -179,10 +181,12 @@ where
 
         self.tx_in_block.insert(block_header.block_hash(), ks);
 
+        // The tip is the height of the last block in the index, whether the index is full or not
+        self.tip += 1;
+
         if self.is_full() {
             // Avoid logging during bootstrap
             log::debug!("New block added to index: {}", block_header.block_hash());
-            self.tip += 1;
             self.remove_oldest_block();
         }
     }
@@ -194,6 +198,7 @@ where
 
             // Blocks should be disconnected from last backwards. Log if that's not the case so we can revisit this and fix it.
             if let Some(ref h) = self.blocks.pop_back() {
+                self.tip -= 1;
                 if h != block_hash {
                     log::error!("Disconnected block does not match the oldest block stored in the TxIndex ({block_hash} != {h})");
                 }
